@@ -510,13 +510,14 @@ func (n *Nodis) Scan(cursor int64, match string, count int64, typ ds.ValueType) 
 	if keyLen == 0 {
 		return 0, nil
 	}
-	if cursor >= keyLen {
+	if cursor > keyLen {
 		return 0, nil
 	}
 	keys := make([]string, 0)
 	now := time.Now().UnixMilli()
 	tx := newTx(n.store)
 	var iterCursor int64 = 0
+	finished := true
 	n.store.metadata.Scan(func(key string, m *metadata) bool {
 		iterCursor++
 		if cursor--; cursor > 0 {
@@ -527,6 +528,8 @@ func (n *Nodis) Scan(cursor int64, match string, count int64, typ ds.ValueType) 
 			return false
 		}
 		if count == 0 {
+			// key number iterCursor is the first one of the next call
+			finished = false
 			return false
 		}
 		count--
@@ -541,6 +544,9 @@ func (n *Nodis) Scan(cursor int64, match string, count int64, typ ds.ValueType) 
 		}
 		return true
 	})
+	if finished {
+		return 0, keys
+	}
 	return iterCursor, keys
 }
 
